@@ -116,6 +116,16 @@ func typesEqual(a, b []jsonapi.Type) bool {
 }
 
 // c14WellFormed evaluates the invariant of the property text on the Go schema.
+// nilness: which maps of which types are nil (a failed edit leaves the schema
+// exactly as it was, nil maps included)
+func nilness(ts []jsonapi.Type) []bool {
+	var out []bool
+	for _, t := range ts {
+		out = append(out, t.Attrs == nil, t.Rels == nil)
+	}
+	return out
+}
+
 func c14WellFormed(s *jsonapi.Schema) string {
 	seen := map[string]bool{}
 	for _, t := range s.Types {
@@ -164,11 +174,16 @@ func c14History(c *ctx, ops []c14Op, probes []string, how string) {
 	}
 	for i, o := range ops {
 		before := deepCopySchema(s)
+		nilBefore := nilness(s.Types)
 		var err error
 		p, pv := guard(func() {
 			switch o.kind {
 			case "addtype":
-				err = s.AddType(o.typ.Copy())
+				if len(o.typ.Attrs)+len(o.typ.Rels) == 0 {
+					err = s.AddType(jsonapi.Type{Name: o.typ.Name}) // nil maps, as a caller would write it
+				} else {
+					err = s.AddType(o.typ.Copy())
+				}
 			case "removetype":
 				s.RemoveType(o.n)
 			case "addattr":
@@ -203,7 +218,7 @@ func c14History(c *ctx, ops []c14Op, probes []string, how string) {
 		if w := c14WellFormed(s); w != "" {
 			key, detail = "schema-not-well-formed", fmt.Sprintf("after step %d %s: %s", i, o, w)
 		}
-		if err != nil && !typesEqual(before.Types, s.Types) {
+		if err != nil && (!typesEqual(before.Types, s.Types) || !reflect.DeepEqual(nilBefore, nilness(s.Types))) {
 			key, detail = "failed-edit-modified-schema", fmt.Sprintf("step %d %s returned %q but changed the schema", i, o, err)
 		}
 		// lookups agree with the list of types
